@@ -695,3 +695,90 @@ def run(ctx):
     permutations(ctx, im, 30 if quick else 240, 200 if quick else 1000)
     refinement(ctx, im, 84 if quick else 700, 200 if quick else 1500)
     ctx.flush()
+
+
+# ---- extras (round-3 lessons): large jobs, extreme magnitudes ----------------------------------------------------------------------------
+
+def extras(ctx, im):
+    """(a) LARGE jobs: rows are independent whatever the size of the job -- the spectra / series of a long period list on a long record
+    (more than 2^20, 2^21 period-by-sample cells) equal those of the same periods computed in small batches, bit for bit, and the
+    spectral displacement equals the peak of the response series; (b) homogeneity at extreme scales (see gen.scaled_exactly)."""
+    rng = ctx.rng
+    sdof = im.sdof
+    jobs = [(400, 3000), (130, 17000)] if ctx.tier == 'quick' else [(400, 3000), (130, 17000), (1100, 2000), (40, 60000), (300, 7100)]
+    for npd, n in jobs:
+        dt = rng.choice([0.01, 0.005])
+        a = gen.noise_record(rng, n) * np.exp(-((np.arange(n) - n / 3) / (n / 5)) ** 2)
+        periods = np.exp(np.linspace(math.log(0.05), math.log(4.0), npd))
+        xi = rng.choice([0.02, 0.05, 0.2])
+        lead0 = rng.random() < 0.5
+        if lead0:
+            periods = np.concatenate([[0.0], periods])
+        inputs = {'acc': f'noise x gaussian envelope, n={n} (seeded)', 'dt': dt, 'periods': f'{len(periods)} log-spaced 0.05..4 s' + (' after a leading 0' if lead0 else ''),
+                  'xi': xi, 'cells': len(periods) * n}
+        ctx.hist(f'large-job/{len(periods)}x{n}')
+        ctx.count_case(('large', n, npd, dt, xi, lead0), True, sample={'fn': 'pseudo_response_spectra (large job)', **inputs})
+        for fname in ('pseudo_response_spectra', 'true_response_spectra'):
+            f = getattr(sdof, fname)
+            whole = call_impl(f, a, dt, periods, xi)
+            if whole[0] != 'ok':
+                ctx.oracle(f'C02 {fname} returns for a large job', False, inputs, detail=whole)
+                continue
+            nb = 7
+            parts = []
+            body = periods[1:] if lead0 else periods
+            for j in range(nb):
+                chunk = body[j * len(body) // nb:(j + 1) * len(body) // nb]
+                parts.append(f(a, dt, chunk, xi))
+            ok = True
+            where = None
+            for q in range(3):
+                cat = np.concatenate([np.asarray(p[q]) for p in parts])
+                w = np.asarray(whole[1][q])[1:] if lead0 else np.asarray(whole[1][q])
+                if cat.shape != w.shape or not np.array_equal(cat, w):
+                    ok = False
+                    bad = np.nonzero(cat != w)[0] if cat.shape == w.shape else []
+                    where = {'spectrum': q, 'first_row': int(bad[0]) if len(bad) else None, 'whole': float(w[bad[0]]) if len(bad) else None,
+                             'batched': float(cat[bad[0]]) if len(bad) else None}
+                    break
+            ctx.oracle(f'C02 rows are independent for jobs of any size: {fname} of the whole period list == the same periods in batches (==)', ok, inputs,
+                       detail=where)
+        # peak of the series == spectral displacement, on a sample of rows of the large job
+        rows = sorted(rng.sample(range(1 if lead0 else 0, len(periods)), 5))
+        sd = call_impl(sdof.pseudo_response_spectra, a, dt, periods, xi)
+        if sd[0] == 'ok':
+            u = sdof.response_series(a, dt, periods[rows], xi)[0]
+            ok = bool(np.array_equal(np.max(np.abs(u), axis=1), np.asarray(sd[1][0])[rows]))
+            ctx.oracle('C02 spectral displacement of a large job == peak |u| of the response series of the same period (==)', ok, {**inputs, 'rows': rows},
+                       detail={'s_d': np.asarray(sd[1][0])[rows], 'peaks': np.max(np.abs(u), axis=1)})
+    for it in range(4 if ctx.tier == 'quick' else 40):
+        n = rng.randint(8, 100)
+        dt = pick_dt(rng)
+        _, a = pick_record(rng, n, dt)
+        if not np.any(a):
+            continue
+        periods, lead0 = pick_periods(rng, dt, lo=1, hi=3)
+        xi = pick_xi(rng)
+        base = im.resp(a, dt, periods, xi)
+        sp0 = call_impl(sdof.pseudo_response_spectra, a, dt, np.array(periods), xi)
+        if base is None or sp0[0] != 'ok':
+            continue
+        for k in gen.EXTREME_POW2:
+            sc = 2.0 ** k
+            ctx.hist(f'extreme-scale/2^{k}')
+            r = im.resp(a * sc, dt, periods, xi)
+            ctx.oracle('C02.a scaling by +-2^k is exact: response(2^k a) == 2^k response(a)', r is not None and all(gen.scaled_exactly(x, y, sc) for x, y in zip(r, base)),
+                       {'a': a, 'dt': dt, 'periods': periods, 'xi': xi, 'alpha': f'2**{k}'})
+            sp = call_impl(sdof.pseudo_response_spectra, a * sc, dt, np.array(periods), xi)
+            ctx.oracle('C02.a pseudo spectra ignore the sign and scale exactly by 2^k (==)',
+                       sp[0] == 'ok' and all(gen.scaled_exactly(np.asarray(x), np.asarray(y), sc) for x, y in zip(sp[1], sp0[1])),
+                       {'a': a, 'dt': dt, 'periods': periods, 'xi': xi, 'alpha': f'2**{k}'})
+
+
+_run_main = run
+
+
+def run(ctx):
+    _run_main(ctx)
+    extras(ctx, Impl(ctx))
+    ctx.flush()
